@@ -384,7 +384,13 @@ pub fn eval_c18(sc: &Scenario, h: &History, signed: &Signeds, out: &mut Outcome)
         // a script the history declared by reference: its UTxO is among the body's reference inputs (or inputs)
         let mut refs: BTreeSet<(Vec<u8>, u64)> = v.inputs_of(18).unwrap_or_default().into_iter().collect();
         let ins: BTreeSet<(Vec<u8>, u64)> = v.inputs_of(0).unwrap_or_default().into_iter().collect();
-        if let Some(dup) = refs.iter().find(|r| ins.contains(*r)) {
+        // (a caller who lists an input explicitly and leaves the de-duplication option off asked for the overlap)
+        let listed_explicitly: BTreeSet<(Vec<u8>, u64)> = if sc.knobs.dedup_ref_inputs {
+            BTreeSet::new()
+        } else {
+            sc.ops.iter().take(b.op).filter_map(|o| if let Op::RefIn(u, _) = o { Some(*u) } else { None }).filter(|u| *u < sc.world.utxos.len()).map(|u| sc.world.outpoint(u)).collect()
+        };
+        if let Some(dup) = refs.iter().find(|r| ins.contains(*r) && !listed_explicitly.contains(*r)) {
             out.violate("C18.ref_disjoint", "reference_input_is_also_an_input", format!("op {}: {}#{} is both input and reference input", b.op, hex::encode(&dup.0[..4]), dup.1));
         }
         refs.extend(ins.iter().cloned());
